@@ -229,18 +229,30 @@ static void DropAllTables(sqlite3 *db)
 {
     int rc;
     char *err_msg = 0;
-    const char *dropAllObjectsSQL = "SELECT 'DROP TABLE IF EXISTS ' || name || ';' FROM sqlite_master WHERE type = 'table';";
-    /* Execute SQL statement */
-    rc = sqlite3_exec(db, dropAllObjectsSQL, 0, 0, &err_msg);
-    if(rc != SQLITE_OK){
-        fprintf(stderr, "SQL error: %s\n", err_msg);
-        sqlite3_free(err_msg);
+    char *sql;
+    sqlite3_stmt *stmt;
+    /* sqlite_sequence (created by AUTOINCREMENT) cannot be dropped; its rows go away with the tables */
+    const char *nextTableSQL = "SELECT name FROM sqlite_master WHERE type = 'table' AND name NOT LIKE 'sqlite_%' LIMIT 1;";
+    while(1){
+        rc = sqlite3_prepare_v2(db, nextTableSQL, -1, &stmt, 0);
+        if(rc != SQLITE_OK){
+            fprintf(stderr, "SQL error: %s\n", sqlite3_errmsg(db));
+            return;
+        }
+        if(sqlite3_step(stmt) != SQLITE_ROW){
+            sqlite3_finalize(stmt);
+            break;
+        }
+        sql = sqlite3_mprintf("DROP TABLE IF EXISTS \"%w\";", sqlite3_column_text(stmt, 0));
+        sqlite3_finalize(stmt);
+        rc = sqlite3_exec(db, sql, 0, 0, &err_msg);
+        sqlite3_free(sql);
+        if(rc != SQLITE_OK){
+            fprintf(stderr, "SQL error: %s\n", err_msg);
+            sqlite3_free(err_msg);
+            return;
+        }
     }
-    #ifdef DEBUG
-    else{
-        fprintf(stdout, "Table created successfully\n");
-    }
-    #endif
 }
 
 static void CloseDB(sqlite3 *db)
